@@ -26,6 +26,7 @@ func init() {
 		Run: runC17,
 		Controls: []Control{
 			{Name: "empty-segment-serialized", File: "protocols/bgp/packet/path_attributes.go", Old: "\t\tif len(segment.ASNs) == 0 {\n\t\t\tcontinue\n\t\t}\n", New: "", Expect: "no-empty-segment-on-the-wire"},
+			{Name: "send-only-peer-falls-through-to-tx", File: "protocols/bgp/server/fsm_open_sent.go", Old: "\t\tcase packet.AddPathSend:\n\t\t\tif peerAddressFamily.addPathReceive {\n\t\t\t\tf.addPathRX = true\n\t\t\t}\n\t\tcase packet.AddPathSendReceive:\n", New: "\t\tcase packet.AddPathSend:\n\t\t\tif peerAddressFamily.addPathReceive {\n\t\t\t\tf.addPathRX = true\n\t\t\t}\n\t\t\tfallthrough\n\t\tcase packet.AddPathSendReceive:\n", Expect: "capability-needs-both-sides"},
 			{Name: "decoder-rejects-the-role-mismatch-sub-code", File: "protocols/bgp/packet/decoder.go", Old: "\t\tif (msg.ErrorSubcode > UnacceptableHoldTime && msg.ErrorSubcode != RoleMismatchError) || msg.ErrorSubcode == 0 || msg.ErrorSubcode == DeprecatedOpenMsgError5 {", New: "\t\tif msg.ErrorSubcode > UnacceptableHoldTime || msg.ErrorSubcode == 0 || msg.ErrorSubcode == DeprecatedOpenMsgError5 {", Expect: "emitted-notifications-decode"},
 			{Name: "as-path-position-advanced-by-a-narrow-product", File: "protocols/bgp/packet/path_attributes.go", Old: "\t\t\tp += uint16(asnLength)\n", New: "\t\t\tp += uint16(asnLength*count) / uint16(count)\n", Expect: "product-computed-in-the-wide-type"},
 			{Name: "header-octet-counted-before-the-length-is-written", File: "protocols/bgp/packet/path_attributes.go", Old: "\tbuf.WriteByte(CommunitiesAttr)\n\n\tif length < 256 {\n\t\tbuf.WriteByte(uint8(length))\n\t} else {\n\t\tbuf.Write(convert.Uint16Byte(length))\n\t\tlength++\n\t}\n", New: "\tbuf.WriteByte(CommunitiesAttr)\n\n\tif length >= 256 {\n\t\tlength++\n\t}\n\tif length < 256 {\n\t\tbuf.WriteByte(uint8(length))\n\t} else {\n\t\tbuf.Write(convert.Uint16Byte(length))\n\t}\n", Expect: "length-field-written-as-computed"},
@@ -181,6 +182,7 @@ func lenDerived(f *core.Fn, e ast.Expr, depth int) bool {
 }
 
 func runC17(c *core.Ctx) {
+	capabilityStores(c)
 	p := c.P
 	roots := []*core.Fn{}
 	for _, k := range []string{pktPkg + ".(*PathAttribute).Serialize", pktPkg + ".(*BGPUpdate).SerializeUpdate", pktPkg + ".SerializeOpenMsg", pktPkg + ".SerializeNotificationMsg", pktPkg + ".SerializeKeepaliveMsg"} {
